@@ -201,11 +201,10 @@ def lookupOrFail (m : List (Nat × Nat)) (k : Nat) : R Nat :=
 
 /-- remap a `VarIdxBase` field at `pos` of the bytes just embedded -/
 def patchVar (p : PlanIn) (bytes : List Nat) (pos : Nat) : R (List Nat) :=
-  let v := beValue ((bytes.drop pos).take 4)
-  if v = NO_VARIATION_INDEX then pure bytes
-  else do
-    let nv ← lookupOrFail p.varIdx v
-    pure (writeBE bytes pos 4 nv)
+  if beValue ((bytes.drop pos).take 4) = NO_VARIATION_INDEX then pure bytes
+  else match p.varIdx.lookup (beValue ((bytes.drop pos).take 4)) with
+    | none => throw Err.fail
+    | some nv => pure (writeBE bytes pos 4 nv)
 
 /-- `pop_pack(true)` + `add_link` of `serialize_subset`; an empty object makes it return `Err(s.error())`
 with no error set -/
@@ -214,94 +213,161 @@ def packChild (packed : List Obj) (o : Obj) : R (Nat × List Obj) :=
   | (pk, some i) => pure (i, pk)
   | (_, none) => throw Err.dropped
 
+/-- one `ColorStop` / `VarColorStop` at absolute position `q` -/
+def stopBytes (b : Array Nat) (p : PlanIn) (isVar : Bool) (q : Nat) : R (List Nat) :=
+  match sl b q 2, rd 2 b (q + 2), sl b (q + 4) 2 with
+  | some so, some pal, some alpha =>
+    match p.palettes.lookup pal with
+    | none => throw Err.fail
+    | some npal =>
+      if isVar then
+        match rd 4 b (q + 6) with
+        | none => throw Err.fail
+        | some v =>
+          if v = NO_VARIATION_INDEX then pure (so ++ beBytes 2 npal ++ alpha ++ beBytes 4 v)
+          else match p.varIdx.lookup v with
+            | none => throw Err.fail
+            | some nv => pure (so ++ beBytes 2 npal ++ alpha ++ beBytes 4 nv)
+      else pure (so ++ beBytes 2 npal ++ alpha)
+  | _, _, _ => throw Err.fail
+
+/-- the stops `i .. i + n` of a colour line whose stop array starts at `base` -/
+def stopsGo (b : Array Nat) (p : PlanIn) (isVar : Bool) (base : Nat) : Nat → Nat → R (List Nat)
+  | _, 0 => pure []
+  | i, n + 1 =>
+    stopBytes b p isVar (base + i * (if isVar then 10 else 6)) >>= fun s =>
+    stopsGo b p isVar base (i + 1) n >>= fun rest => pure (s ++ rest)
+
 /-- `ColorLine::subset` / `VarColorLine::subset` on the colour line at absolute position `off` -/
-def colorLineObj (b : Array Nat) (p : PlanIn) (off : Nat) (isVar : Bool) : R Obj := do
-  let stopSize := if isVar then 10 else 6
-  let some ext := rd 1 b off | throw Err.fail
-  let some n := rd 2 b (off + 1) | throw Err.fail
-  if off + 3 + n * stopSize > b.size then throw Err.fail
-  let stops ← (List.range n).mapM fun i => do
-    let q := off + 3 + i * stopSize
-    let some so := sl b q 2 | throw Err.fail
-    let some pal := rd 2 b (q + 2) | throw Err.fail
-    let some alpha := sl b (q + 4) 2 | throw Err.fail
-    let npal ← lookupOrFail p.palettes pal
-    if isVar then
-      let some v := rd 4 b (q + 6) | throw Err.fail
-      let nv ← if v = NO_VARIATION_INDEX then pure v else lookupOrFail p.varIdx v
-      pure (so ++ beBytes 2 npal ++ alpha ++ beBytes 4 nv)
-    else pure (so ++ beBytes 2 npal ++ alpha)
-  -- `Extend` is an enum: unknown values read as `Unknown` (= 3) and are written back as such
-  pure ⟨[if ext ≤ 2 then ext else 3] ++ beBytes 2 n ++ stops.flatten, []⟩
+def colorLineObj (b : Array Nat) (p : PlanIn) (off : Nat) (isVar : Bool) : R Obj :=
+  match rd 1 b off, rd 2 b (off + 1) with
+  | some ext, some n =>
+    if off + 3 + n * (if isVar then 10 else 6) > b.size then throw Err.fail
+    else
+      stopsGo b p isVar (off + 3) 0 n >>= fun stops =>
+      -- `Extend` is an enum: unknown values read as `Unknown` (= 3) and are written back as such
+      pure ⟨[if ext ≤ 2 then ext else 3] ++ beBytes 2 n ++ stops, []⟩
+  | _, _ => throw Err.fail
+
+/-- positions of the 24-bit offsets to child PAINTS, in the order `subset` follows them -/
+def kidPositions (fmt : Nat) : List Nat :=
+  if fmt = 32 then [1, 5] else if fmt = 10 ∨ (12 ≤ fmt ∧ fmt ≤ 31) then [1] else []
+
+/-- the non-paint child of a paint: a colour line or an affine matrix -/
+inductive Blob where
+  | line (isVar : Bool)
+  | affine (isVar : Bool)
+  deriving Repr, DecidableEq
+
+/-- position of the 24-bit offset to the non-paint child (followed after the child paints) -/
+def blobOf (fmt : Nat) : Option (Nat × Blob) :=
+  if 4 ≤ fmt ∧ fmt ≤ 9 then some (1, .line (fmt % 2 = 1))
+  else if fmt = 12 then some (4, .affine false)
+  else if fmt = 13 then some (4, .affine true)
+  else none
+
+/-- the bytes of the object a paint of format `fmt` with fixed part `src` becomes: ids renamed through
+the plan's maps; the offset fields are zero where the Rust writes the fields one by one (formats 10, 12,
+13, 32) and keep the SOURCE offset (overwritten when links are resolved, but taking part in the object
+comparison of `pop_pack`) where it embeds `min_table_bytes()`.  Any failed lookup is
+`set_err(SERIALIZE_ERROR_OTHER)`: the order of the checks relative to the children does not matter. -/
+def renameNode (p : PlanIn) (fmt : Nat) (src : List Nat) : R (List Nat) :=
+  if fmt = 1 then
+    -- PaintColrLayers (an empty range is copied as is: fix b17fcc8)
+    if src.getD 1 0 = 0 then pure src
+    else match p.layers.lookup (beValue ((src.drop 2).take 4)) with
+      | none => throw Err.fail
+      | some nf => pure (writeBE src 2 4 nf)
+  else if fmt = 2 ∨ fmt = 3 then
+    -- PaintSolid / PaintVarSolid
+    match p.palettes.lookup (beValue ((src.drop 1).take 2)) with
+    | none => throw Err.fail
+    | some npal => if fmt = 3 then patchVar p (writeBE src 1 2 npal) 5 else pure (writeBE src 1 2 npal)
+  else if fmt = 10 then
+    -- PaintGlyph
+    match p.glyphMap.lookup (beValue ((src.drop 4).take 2)) with
+    | none => throw Err.fail
+    | some ng => pure ([10, 0, 0, 0] ++ beBytes 2 ng)
+  else if fmt = 11 then
+    -- PaintColrGlyph
+    match p.glyphMap.lookup (beValue ((src.drop 1).take 2)) with
+    | none => throw Err.fail
+    | some ng => pure ([11] ++ beBytes 2 ng)
+  else if fmt = 12 ∨ fmt = 13 then pure [fmt, 0, 0, 0, 0, 0, 0]
+  else if fmt = 32 then
+    -- `CompositeMode` is an enum: unknown values are written back as `Unknown` (= 28)
+    pure [32, 0, 0, 0, if src.getD 4 0 ≤ 27 then src.getD 4 0 else 28, 0, 0, 0]
+  else
+    -- gradients 4..9 and formats 14..31: the source bytes; odd formats: VarIdxBase is the last field
+    if fmt % 2 = 1 then patchVar p src (src.length - 4) else pure src
+
+/-- build an object for every item (which may pack objects of its own), pack it (`serialize_subset`),
+and collect the indices of the packed objects in order -/
+def packEach {α : Type} (build : α → List Obj → R (Obj × List Obj)) :
+    List α → List Obj → R (List Nat × List Obj)
+  | [], packed => pure ([], packed)
+  | a :: as, packed =>
+    build a packed >>= fun r =>
+    packChild r.2 r.1 >>= fun ip =>
+    packEach build as ip.2 >>= fun more =>
+    pure (ip.1 :: more.1, more.2)
+
+/-- links of width `width` at the positions `first + k * stride` to the `k`-th target -/
+def linksAt (first stride width : Nat) (targets : List Nat) : List Link :=
+  targets.zipIdx.map fun tk => ⟨first + tk.2 * stride, width, tk.1⟩
+
+/-- the child paint behind the 24-bit offset at `pos` of the paint at `off`: resolve, read, subset -/
+def kidBuild (rec : Nat → List Obj → R (Obj × List Obj)) (b : Array Nat) (off : Nat) (pos : Nat)
+    (packed : List Obj) : R (Obj × List Obj) :=
+  match resolveOff b 3 off pos with
+  | none => throw Err.fail
+  | some c => if !paintOk b c then throw Err.fail else rec c packed
+
+/-- follow the child paint offsets at `positions` of the paint at `off`; returns the links and the packed
+list -/
+def packKids (rec : Nat → List Obj → R (Obj × List Obj)) (b : Array Nat) (off : Nat)
+    (positions : List Nat) (packed : List Obj) : R (List Link × List Obj) :=
+  packEach (kidBuild rec b off) positions packed >>= fun tp =>
+  pure (List.zipWith (fun pos t => ⟨pos, 3, t⟩) positions tp.1, tp.2)
+
+/-- the object of the non-paint child behind the offset at `pos` -/
+def blobObj (b : Array Nat) (p : PlanIn) (off pos : Nat) (kind : Blob) : R Obj :=
+  match resolveOff b 3 off pos with
+  | none => throw Err.fail
+  | some c =>
+    match kind with
+    | .line isVar => colorLineObj b p c isVar
+    | .affine isVar =>
+      match sl b c (if isVar then 28 else 24) with
+      | none => throw Err.fail
+      | some a => if isVar then patchVar p a 24 >>= fun a' => pure ⟨a', []⟩ else pure ⟨a, []⟩
+
+def packBlob (b : Array Nat) (p : PlanIn) (off : Nat) (spec : Option (Nat × Blob)) (packed : List Obj) :
+    R (List Link × List Obj) :=
+  match spec with
+  | none => pure ([], packed)
+  | some (pos, kind) =>
+    blobObj b p off pos kind >>= fun o =>
+    packChild packed o >>= fun ip => pure ([⟨pos, 3, ip.1⟩], ip.2)
 
 /-- `Paint::subset` for the paint at absolute position `off` (already read successfully by the caller):
 the object to pack and the packed list after its children. -/
 def subsetPaint (b : Array Nat) (p : PlanIn) : Nat → Nat → List Obj → R (Obj × List Obj)
   | 0, _, _ => throw Err.trap
-  | fuel + 1, off, packed => do
-    let some fmt := rd 1 b off | throw Err.fail
-    let some size := paintSize fmt | throw Err.fail
-    let some src := sl b off size | throw Err.fail
-    -- child paint behind the 24-bit offset at `pos`: resolve, read, subset, pack
-    let kid (pos : Nat) (packed : List Obj) : R (Nat × List Obj) := do
-      let some c := resolveOff b 3 off pos | throw Err.fail
-      if !paintOk b c then throw Err.fail
-      let (o, pk) ← subsetPaint b p fuel c packed
-      packChild pk o
-    if fmt = 1 then
-      -- PaintColrLayers (an empty range is copied as is: fix b17fcc8)
-      if src.getD 1 0 = 0 then pure (⟨src, []⟩, packed) else
-      let first := beValue ((src.drop 2).take 4)
-      let nf ← lookupOrFail p.layers first
-      pure (⟨writeBE src 2 4 nf, []⟩, packed)
-    else if fmt = 2 ∨ fmt = 3 then
-      -- PaintSolid / PaintVarSolid
-      let pal := beValue ((src.drop 1).take 2)
-      let npal ← lookupOrFail p.palettes pal
-      let bytes := writeBE src 1 2 npal
-      let bytes ← if fmt = 3 then patchVar p bytes 5 else pure bytes
-      pure (⟨bytes, []⟩, packed)
-    else if 4 ≤ fmt ∧ fmt ≤ 9 then
-      -- gradients: colour line behind the offset at 1
-      let isVar := fmt % 2 = 1
-      let some c := resolveOff b 3 off 1 | throw Err.fail
-      let cl ← colorLineObj b p c isVar
-      let (i, pk) ← packChild packed cl
-      let bytes ← if isVar then patchVar p src (size - 4) else pure src
-      pure (⟨bytes, [⟨1, 3, i⟩]⟩, pk)
-    else if fmt = 10 then
-      -- PaintGlyph: format, zeroed offset, mapped glyph id; then the child
-      let gid := beValue ((src.drop 4).take 2)
-      let ng ← lookupOrFail p.glyphMap gid
-      let (i, pk) ← kid 1 packed
-      pure (⟨[10, 0, 0, 0] ++ beBytes 2 ng, [⟨1, 3, i⟩]⟩, pk)
-    else if fmt = 11 then
-      -- PaintColrGlyph
-      let gid := beValue ((src.drop 1).take 2)
-      let ng ← lookupOrFail p.glyphMap gid
-      pure (⟨[11] ++ beBytes 2 ng, []⟩, packed)
-    else if fmt = 12 ∨ fmt = 13 then
-      -- PaintTransform / PaintVarTransform: child paint, then the (Var)Affine2x3
-      let (i, pk) ← kid 1 packed
-      let asz := if fmt = 13 then 28 else 24
-      let some a := resolveOff b 3 off 4 | throw Err.fail
-      let some abytes := sl b a asz | throw Err.fail
-      let abytes ← if fmt = 13 then patchVar p abytes 24 else pure abytes
-      let (j, pk) ← packChild pk ⟨abytes, []⟩
-      pure (⟨[fmt, 0, 0, 0, 0, 0, 0], [⟨1, 3, i⟩, ⟨4, 3, j⟩]⟩, pk)
-    else if fmt = 32 then
-      -- PaintComposite
-      let (i, pk) ← kid 1 packed
-      let (j, pk) ← kid 5 pk
-      -- `CompositeMode` is an enum: unknown values are written back as `Unknown` (= 28)
-      let mode := src.getD 4 0
-      pure (⟨[32, 0, 0, 0, if mode ≤ 27 then mode else 28, 0, 0, 0], [⟨1, 3, i⟩, ⟨5, 3, j⟩]⟩, pk)
-    else
-      -- formats 14..31: the source bytes (stale offset included), child behind the offset at 1,
-      -- odd formats: VarIdxBase is the last field
-      let (i, pk) ← kid 1 packed
-      let bytes ← if fmt % 2 = 1 then patchVar p src (size - 4) else pure src
-      pure (⟨bytes, [⟨1, 3, i⟩]⟩, pk)
+  | fuel + 1, off, packed =>
+    match rd 1 b off with
+    | none => throw Err.fail
+    | some fmt =>
+      match paintSize fmt with
+      | none => throw Err.fail
+      | some size =>
+        match sl b off size with
+        | none => throw Err.fail
+        | some src =>
+          renameNode p fmt src >>= fun bytes =>
+          packKids (subsetPaint b p fuel) b off (kidPositions fmt) packed >>= fun ks =>
+          packBlob b p off (blobOf fmt) ks.2 >>= fun bl =>
+          pure (⟨bytes, ks.1 ++ bl.1⟩, bl.2)
 
 /-- fuel that is never exhausted: a child starts behind its parent -/
 def paintFuel (b : Array Nat) : Nat := b.size + 1
@@ -317,47 +383,40 @@ def baseGlyphPaintRecords (b : Array Nat) (off : Nat) : Option (List (Nat × Nat
     let o ← rd 4 b (off + 4 + 6 * i + 2)
     pure (g, o)
 
-/-- `BaseGlyphList::subset` -/
-def baseListGo (b : Array Nat) (p : PlanIn) (off : Nat) :
-    List (Nat × Nat) → List Nat → List Link → List Obj → R (List Nat × List Link × List Obj)
-  | [], bytes, links, packed => pure (bytes, links, packed)
-  | (g, o) :: rest, bytes, links, packed =>
-    if !p.colred.contains g then baseListGo b p off rest bytes links packed
-    else do
-      let ng ← lookupOrFail p.glyphMap g
-      -- `self.paint(offset_data)`
-      if o = 0 ∨ off + o > b.size then throw Err.fail
-      if !paintOk b (off + o) then throw Err.fail
-      let (obj, pk) ← subsetPaint b p (paintFuel b) (off + o) packed
-      let (i, pk) ← packChild pk obj
-      baseListGo b p off rest (bytes ++ beBytes 2 ng ++ [0, 0, 0, 0]) (links ++ [⟨bytes.length + 2, 4, i⟩]) pk
+/-- one `BaseGlyphPaint::subset`: glyph id through the glyph map, `self.paint(offset_data)`, the paint -/
+def bglBuild (b : Array Nat) (p : PlanIn) (off : Nat) (r : Nat × Nat) (packed : List Obj) : R (Obj × List Obj) :=
+  match p.glyphMap.lookup r.1 with
+  | none => throw Err.fail
+  | some _ =>
+    if r.2 = 0 ∨ off + r.2 > b.size then throw Err.fail
+    else if !paintOk b (off + r.2) then throw Err.fail
+    else subsetPaint b p (paintFuel b) (off + r.2) packed
 
+/-- `BaseGlyphList::subset`: the records whose glyph is in `glyphset_colred`, in source order -/
 def baseListObj (b : Array Nat) (p : PlanIn) (off : Nat) (recs : List (Nat × Nat)) (packed : List Obj) :
-    R (Obj × List Obj) := do
-  let (bytes, links, pk) ← baseListGo b p off recs [0, 0, 0, 0] [] packed
-  let n := (recs.filter fun r => p.colred.contains r.1).length
-  pure (⟨writeBE bytes 0 4 (n % 4294967296), links⟩, pk)
+    R (Obj × List Obj) :=
+  let kept := recs.filter fun r => p.colred.contains r.1
+  packEach (bglBuild b p off) kept packed >>= fun tp =>
+  pure (⟨beBytes 4 (kept.length % 4294967296) ++
+          kept.flatMap (fun r => beBytes 2 ((p.glyphMap.lookup r.1).getD 0) ++ [0, 0, 0, 0]),
+         linksAt 6 6 4 tp.1⟩, tp.2)
 
-/-- loop of `LayerList::subset` over the retained source layer indices -/
-def layerListGo (b : Array Nat) (p : PlanIn) (off : Nat) :
-    List Nat → List Nat → List Link → List Obj → R (List Nat × List Link × List Obj)
-  | [], bytes, links, packed => pure (bytes, links, packed)
-  | idx :: rest, bytes, links, packed => do
-    -- `ArrayOfOffsets::get(idx)`: read error ⇒ Err(READ_ERROR) without a serializer error
-    let some c := resolveOff b 4 off (4 + 4 * idx) | throw Err.dropped
-    if !paintOk b c then throw Err.dropped
-    let (obj, pk) ← subsetPaint b p (paintFuel b) c packed
-    let (i, pk) ← packChild pk obj
-    layerListGo b p off rest (bytes ++ [0, 0, 0, 0]) (links ++ [⟨bytes.length, 4, i⟩]) pk
+/-- one retained layer: `ArrayOfOffsets::get(idx)` (read error ⇒ Err(READ_ERROR) without a serializer
+error), then the paint -/
+def layerBuild (b : Array Nat) (p : PlanIn) (off : Nat) (idx : Nat) (packed : List Obj) : R (Obj × List Obj) :=
+  match resolveOff b 4 off (4 + 4 * idx) with
+  | none => throw Err.dropped
+  | some c => if !paintOk b c then throw Err.dropped else subsetPaint b p (paintFuel b) c packed
 
 /-- `LayerList::subset`; `none` = `SERIALIZE_ERROR_EMPTY` (nothing written, offset stays 0) -/
 def layerListObj (b : Array Nat) (p : PlanIn) (off numLayers : Nat) (packed : List Obj) :
-    R (Option (Obj × List Obj)) := do
+    R (Option (Obj × List Obj)) :=
   if p.layers.isEmpty then pure none
   else
     let kept := (List.range numLayers).filter fun i => (p.layers.lookup i).isSome
-    let (bytes, links, pk) ← layerListGo b p off kept (beBytes 4 (p.layers.length % 4294967296)) [] packed
-    pure (some (⟨bytes, links⟩, pk))
+    packEach (layerBuild b p off) kept packed >>= fun tp =>
+    pure (some (⟨beBytes 4 (p.layers.length % 4294967296) ++ List.replicate (4 * kept.length) 0,
+                 linksAt 4 4 4 tp.1⟩, tp.2))
 
 /-- the clips of the `ClipList` at `off`: (start, end, raw box offset) -/
 def clipRecords (b : Array Nat) (off : Nat) : Option (List (Nat × Nat × Nat)) := do
@@ -396,40 +455,39 @@ def clipRuns : List (Nat × Nat) → Nat → Nat → Nat → List (Nat × Nat ×
     if g = prev + 1 ∧ o = off then clipRuns rest start g off
     else (start, prev, off) :: clipRuns rest g g o
 
-/-- `ClipBox::subset` for the box behind the raw offset `o` of the ClipList at `off` -/
-def clipBoxObj (b : Array Nat) (p : PlanIn) (off o : Nat) : R Obj := do
-  -- `prev_offset.resolve(..)`: errors are returned without setting a serializer error
+/-- `ClipBox::subset` for the box behind the raw offset `o` of the ClipList at `off`;
+`prev_offset.resolve(..)`: errors are returned without setting a serializer error -/
+def clipBoxObj (b : Array Nat) (p : PlanIn) (off o : Nat) : R Obj :=
   if o = 0 ∨ off + o > b.size then throw Err.dropped
-  let q := off + o
-  let some fmt := rd 1 b q | throw Err.dropped
-  if fmt = 1 then
-    let some src := sl b q 9 | throw Err.dropped
-    pure ⟨src, []⟩
-  else if fmt = 2 then
-    let some src := sl b q 13 | throw Err.dropped
-    let bytes ← patchVar p src 9
-    pure ⟨bytes, []⟩
-  else throw Err.dropped
-
-def clipListGo (b : Array Nat) (p : PlanIn) (off : Nat) :
-    List (Nat × Nat × Nat) → List Nat → List Link → List Obj → R (List Nat × List Link × List Obj)
-  | [], bytes, links, packed => pure (bytes, links, packed)
-  | (s, e, o) :: rest, bytes, links, packed => do
-    let box ← clipBoxObj b p off o
-    let (i, pk) ← packChild packed box
-    clipListGo b p off rest (bytes ++ beBytes 2 s ++ beBytes 2 e ++ [0, 0, 0])
-      (links ++ [⟨bytes.length + 4, 3, i⟩]) pk
+  else
+    match rd 1 b (off + o) with
+    | none => throw Err.dropped
+    | some fmt =>
+      if fmt = 1 then
+        match sl b (off + o) 9 with
+        | none => throw Err.dropped
+        | some src => pure ⟨src, []⟩
+      else if fmt = 2 then
+        match sl b (off + o) 13 with
+        | none => throw Err.dropped
+        | some src => patchVar p src 9 >>= fun bytes => pure ⟨bytes, []⟩
+      else throw Err.dropped
 
 /-- `ClipList::subset`; `none` = `SERIALIZE_ERROR_EMPTY` -/
 def clipListObj (b : Array Nat) (p : PlanIn) (off : Nat) (clips : List (Nat × Nat × Nat))
-    (packed : List Obj) : R (Option (Obj × List Obj)) := do
+    (packed : List Obj) : R (Option (Obj × List Obj)) :=
   match clipMap p clips with
   | [] => pure none
   | (g0, o0) :: rest =>
     let runs := clipRuns rest g0 g0 o0
-    let some fmt := rd 1 b off | throw Err.dropped
-    let (bytes, links, pk) ← clipListGo b p off runs ([fmt] ++ beBytes 4 (runs.length % 4294967296)) [] packed
-    pure (some (⟨bytes, links⟩, pk))
+    match rd 1 b off with
+    | none => throw Err.dropped
+    | some fmt =>
+      packEach (fun (r : Nat × Nat × Nat) pk => clipBoxObj b p off r.2.2 >>= fun o => pure (o, pk)) runs packed
+        >>= fun tp =>
+      pure (some (⟨[fmt] ++ beBytes 4 (runs.length % 4294967296) ++
+                    runs.flatMap (fun r => beBytes 2 r.1 ++ beBytes 2 r.2.1 ++ [0, 0, 0]),
+                   linksAt 9 7 3 tp.1⟩, tp.2))
 
 /-! ## the variation tables of COLR -/
 
@@ -504,23 +562,24 @@ def readDsim (b : Array Nat) (off : Nat) : DsimIn :=
 
 /-- `Offset32::serialize_subset(&var_store, .., &plan.colr_varstore_inner_maps, 30)`:
 `none` = `SERIALIZE_ERROR_EMPTY` (tolerated: the offset stays 0) -/
-def storeObj (st : StoreIn) (innerMaps : List (List Nat)) (packed : List Obj) : R (Option (Obj × List Obj)) := do
+def storeObj (st : StoreIn) (innerMaps : List (List Nat)) (packed : List Obj) : R (Option (Obj × List Obj)) :=
   if innerMaps.isEmpty then pure none
   else
+    match st.regions with
     -- `variation_region_list()` error: Err(READ_ERROR) without a serializer error
-    let some (axisCount, regions) := st.regions | throw Err.dropped
-    let refs ← SubsetHvar.collectAll st.subs innerMaps []
-    let regionMap := refs.filter (· < regions.length)
-    if regionMap.isEmpty then pure none
-    else
-      let out ← SubsetHvar.subsetStore axisCount regions st.subs innerMaps
-      let (ri, pk) ← packChild packed ⟨SubsetHvar.regionListBytes axisCount out.regions, []⟩
-      let (links, pk) ← out.subs.zipIdx.foldlM (fun (acc : List Link × List Obj) (sub, k) => do
-        let (i, pk) ← packChild acc.2 ⟨SubsetHvar.subBytes sub, []⟩
-        pure (acc.1 ++ [⟨8 + 4 * k, 4, i⟩], pk)) ([], pk)
-      let bytes := beBytes 2 st.format ++ [0, 0, 0, 0] ++ beBytes 2 (out.subs.length % 65536) ++
-        List.replicate (4 * out.subs.length) 0
-      pure (some (⟨bytes, ⟨2, 4, ri⟩ :: links⟩, pk))
+    | none => throw Err.dropped
+    | some (axisCount, regions) =>
+      SubsetHvar.collectAll st.subs innerMaps [] >>= fun refs =>
+      if (refs.filter (· < regions.length)).isEmpty then pure none
+      else
+        SubsetHvar.subsetStore axisCount regions st.subs innerMaps >>= fun out =>
+        -- the region list is packed first, then every retained ItemVariationData
+        packEach (fun (o : Obj) pk => pure (o, pk))
+          (⟨SubsetHvar.regionListBytes axisCount out.regions, []⟩ ::
+            out.subs.map fun sub => ⟨SubsetHvar.subBytes sub, []⟩) packed >>= fun tp =>
+        pure (some (⟨beBytes 2 st.format ++ [0, 0, 0, 0] ++ beBytes 2 (out.subs.length % 65536) ++
+                      List.replicate (4 * out.subs.length) 0,
+                     ⟨2, 4, tp.1.headD 0⟩ :: linksAt 8 4 4 tp.1.tail⟩, tp.2))
 
 /-- `create_deltaset_index_map_subset_plan` -/
 def dsimPlan (newDs : List (Nat × Nat)) : R (Option SubsetHvar.MapPlan) :=
